@@ -90,7 +90,7 @@ pub struct Tree {
 const FILE_NAMES: &[&str] = &[
     "a.txt", "noext", "multi.dot.tar.gz", "with space.html", "ünï.png", "100%.css", "UPPER.PNG", "semi;colon.json", "q?mark.js", "plus+sign.svg", "pic.jpeg", "x.woff2", "hash#tag.txt", "a:b.txt", "dots..txt", ".hidden", "weird.%2e%2e", "%2e%2e", "-dash.mp4", "tilde~.zip",
 ];
-const DIR_NAMES: &[&str] = &["sub", "deep", "dir with space", "d.ot", "ünï", "100%", "idx", "idxm", "..."];
+const DIR_NAMES: &[&str] = &["sub", "deep", "dir with space", "d.ot", "ünï", "100%", "idx", "idxm", "...", "files", "static", "s"];
 
 pub fn build_tree(rng: &mut Lcg) -> Tree {
     let tmp = TmpDir::new("c06");
@@ -121,6 +121,17 @@ pub fn build_tree(rng: &mut Lcg) -> Tree {
         std::fs::create_dir_all(root.join(&rel)).unwrap();
         dirs.push(rel);
     }
+    // every other tree: directories named like the route prefixes the tree is mounted under (`/files*`, `/static/*`, `/s/*`),
+    // nested once more, each holding a file whose name also exists one level up
+    let like_routes = rng.next() % 2 == 0;
+    if like_routes {
+        for rel in ["files", "files/files", "static", "s"] {
+            if !dirs.iter().any(|d| d == rel) {
+                std::fs::create_dir_all(root.join(rel)).unwrap();
+                dirs.push(rel.to_string());
+            }
+        }
+    }
     let nfiles = 4 + (rng.next() % 14) as usize;
     for _ in 0..nfiles {
         let d = dirs[(rng.next() % dirs.len() as u64) as usize].clone();
@@ -135,6 +146,15 @@ pub fn build_tree(rng: &mut Lcg) -> Tree {
         content.extend(extra);
         std::fs::write(root.join(&rel), &content).unwrap();
         files.insert(rel, content);
+    }
+    if like_routes {
+        for rel in ["a.txt", "files/a.txt", "files/files/a.txt", "static/a.txt", "s/a.txt"] {
+            if !files.contains_key(rel) {
+                let content = format!("FILE[{}]#{}|", rel, rng.next()).into_bytes();
+                std::fs::write(root.join(rel), &content).unwrap();
+                files.insert(rel.to_string(), content);
+            }
+        }
     }
     // index files
     for d in dirs.clone() {
@@ -191,8 +211,11 @@ impl Mounted {
         #[cfg(hvt)]
         return Mounted { handler, route, dir: leak(d) };
     }
-    fn prefix(&self) -> &str {
-        self.route.strip_suffix('*').unwrap_or(self.route)
+    /// what a request path under this mount starts with: the route without its `*`; a route like `/files*` (wildcard
+    /// without a slash before it) also matches `/files/...`, which is how the files below it are addressed
+    fn prefix(&self) -> String {
+        let p = self.route.strip_suffix('*').unwrap_or(self.route);
+        if p.ends_with('/') { p.to_string() } else { format!("{}/", p) }
     }
     /// tokio build: the async handlers of humphrey::handlers, driven to completion on a current-thread runtime
     #[cfg(hvt)]
@@ -314,7 +337,7 @@ pub fn check_tree(ctx: &Ctx, seed: u64, paths_per_mount: usize) -> Vec<(Fail, J)
     let mut mounts = vec![Mounted::new(Handler::ServeDir, "/*", &tree, false), Mounted::new(Handler::ServeDir, "/s/*", &tree, true), Mounted::new(Handler::ServeAsFilePath, "/*", &tree, rng.next() % 2 == 0)];
     // the server crate's directory routes exist in the threaded build only
     #[cfg(not(hvt))]
-    mounts.extend([Mounted::new(Handler::ServerDirectory(false), "/*", &tree, false), Mounted::new(Handler::ServerDirectory(true), "/static/*", &tree, true), Mounted::new(Handler::ServerDirectory(false), "/s/*", &tree, false)]);
+    mounts.extend([Mounted::new(Handler::ServerDirectory(false), "/*", &tree, false), Mounted::new(Handler::ServerDirectory(true), "/static/*", &tree, true), Mounted::new(Handler::ServerDirectory(false), "/s/*", &tree, false), Mounted::new(Handler::ServerDirectory(false), "/files*", &tree, false)]);
     let segs = hostile_segments(&tree);
     let mut push = |f: Fail, m: &Mounted, uri: &str, out: &mut Vec<(Fail, J)>| {
         if !out.iter().any(|(x, _)| x.sig == f.sig) {
